@@ -75,6 +75,8 @@ if isinstance(_imp, dict):
         if 'crash' in _imp:
             _log.emit('Crash', how=_imp['crash'], where='import')
             worldlib.crash(_imp['crash'])
+        if _imp.get('raise') == 'SystemExit':
+            raise SystemExit(_imp.get('code'))
         if _imp.get('raise'):
             raise worldlib.EXC[_imp['raise']]('import failed')
 elif _imp == 'raise':
